@@ -46,7 +46,18 @@ def run_sharded(drv, chainbin, mode, lo, hi, step=1, args=(), nshards=None, time
     return merged
 
 
-def absorb(rep, merged, ch, prefix="", exhaustive=True, sample_every=40):
+TAIL_FIRST = 917327      # 4094-05-05: first day the library's day-count -> ymd conversion refuses (pinned by test dconv.122)
+
+
+def tail_collapse(k, m):
+    """mismatch classes of day-count sources whose whole failing set lies in the 606-day tail are one finding"""
+    w = k.split()
+    if m["min"] >= TAIL_FIRST and len(w) > 1 and any(w[1].startswith(p) for p in ("daisy", "ldn", "mdn", "jdn")):
+        return "daycount-tail:4094-05-05..4095-12-31"
+    return None
+
+
+def absorb(rep, merged, ch, prefix="", exhaustive=True, sample_every=40, collapse=tail_collapse):
     """feed merged driver results into the Report; key carries the failing-set signature when the
     sweep is deterministic (count and day range), so a different failing set is a different key"""
     ev = 0
@@ -55,6 +66,10 @@ def absorb(rep, merged, ch, prefix="", exhaustive=True, sample_every=40):
         if i % sample_every == 0 and m["n"]:
             rep.sample({"case_class": prefix + k, "evaluations": m["n"], "mismatches": m["bad"]})
         if m["bad"]:
+            key = collapse(k, m) if collapse else None
+            if key:
+                rep.disagree(key, {"class": k, "mismatches": m["bad"], "samples": m["s"][:1]})
+                continue
             key = prefix + k
             if exhaustive:
                 key += "#%d@%s..%s" % (m["bad"], ch.fmtF(m["min"]), ch.fmtF(m["max"]))
@@ -82,5 +97,16 @@ def trace_events(drv, chainbin, ldns):
         p = core.run([drv, chainbin, "trace", str(a), str(b), "1"], timeout=300)
         if p.returncode != 0:
             raise core.MachineryError("trace driver failed: " + p.stderr[-1000:])
-        execs.append([json.loads(x) for x in p.stdout.splitlines()])
+        evs = [json.loads(x) for x in p.stdout.splitlines()]
+        # the known day-count tail (see known-findings.txt) is judged in direction A; here its events would only
+        # cut the rest of the execution off, so events from day-count sources on tail days are left out
+        cur = a - 1
+        keep = []
+        for e in evs:
+            if e["e"] in ("Reset", "Next"):
+                cur += 1
+            elif cur >= TAIL_FIRST and e.get("src") in ("daisy", "ldn", "mdn", "jdn"):
+                continue
+            keep.append(e)
+        execs.append(keep)
     return execs
